@@ -36,7 +36,8 @@ theorem number_size_eq_eight :
 /-- the file names on which the translator asks the compiled `SeqFormat::get` (see `p_tables.rs`) -/
 def formatNames : List String :=
   ["x.fa", "x.fasta", "x.fna", "x.fq", "x.fastq", "x.fa.gz", "x.fasta.gz", "x.fna.gz", "x.fq.gz",
-   "x.fastq.gz", "x.txt", "x.gz", "x", "x.fa.bz2", "x.FA", "fa", "x.fastq.fa", "x.fa.fq", "x.fas"]
+   "x.fastq.gz", "x.txt", "x.gz", "x", "x.fa.bz2", "x.FA", "fa", "x.fastq.fa", "x.fa.fq", "x.fas",
+   ".fa", "dir/.fastq", ".fq.gz", "reads.fq.fa.gz", "a.fq/x.fa", "x.fastq.fasta", ".gz", "x..fa"]
 
 def formatCode : Option SeqFormat → Nat
   | none => 0
